@@ -99,10 +99,12 @@
         let (ida, ca) = a.unwrap();
         let (idb, cb) = b.unwrap();
         assert!(ida != idb, "[lead_ids_are_fresh]");
-        let t1 = len_and_forget(m.take(hash, &k1, None));
+        let first: bool = kani::any();
+        let (kt, ko) = if first { (k1, k2) } else { (k2, k1) };
+        let t1 = len_and_forget(m.take(hash, &kt, None));
         assert!(t1 == Some(1), "[take_returns_only_that_keys_waiters]");
-        assert!(ca.load(Ordering::Relaxed) && !cb.load(Ordering::Relaxed), "[take_closes_only_that_keys_fetch]");
-        assert!(is_wait(&mut m, hash, &k2), "[colliding_key_still_registered]");
+        assert!(if first { ca.load(Ordering::Relaxed) && !cb.load(Ordering::Relaxed) } else { cb.load(Ordering::Relaxed) && !ca.load(Ordering::Relaxed) }, "[take_closes_only_that_keys_fetch]");
+        assert!(is_wait(&mut m, hash, &ko), "[colliding_key_still_registered]");
         std::mem::forget(m); std::mem::forget(ca); std::mem::forget(cb);
     }
 
@@ -119,7 +121,13 @@
         assert!(a.is_some(), "[first_caller_leads]");
         let b = lead(&mut m, hash, &k2);
         assert!(b.is_some(), "[colliding_key_is_not_joined_to_the_other_keys_fetch]");
-        std::mem::forget((m, a, b));
+        // an insert of the SECOND registered key takes that key's fetch, not the first entry with the same hash
+        let (_ida, ca) = a.unwrap();
+        let (_idb, cb) = b.unwrap();
+        let t = len_and_forget(m.take(hash, &k2, None));
+        assert!(t == Some(1), "[insert_of_one_key_takes_that_keys_waiters]");
+        assert!(cb.load(Ordering::Relaxed) && !ca.load(Ordering::Relaxed), "[insert_of_one_key_closes_only_that_keys_fetch]");
+        std::mem::forget((m, ca, cb));
     }
 
     #[kani::proof]
